@@ -5,6 +5,7 @@ import Pms.GenR.Boo
 import Pms.Lemmas.Basic
 import Pms.Lemmas.Boo
 import Pms.Lemmas.BooSph
+import Pms.Lemmas.BooUnsold
 import Pms.Props.C08
 import Mathlib.Data.Complex.Basic
 import Mathlib.Algebra.BigOperators.Field
@@ -342,5 +343,27 @@ theorem C09_angles (l : ℕ) (m : ℤ) (x y z : ℝ) (hr : 0 < x * x + y * y + z
     bondY cOps l x y z m
       = Pms.Sph.Y l m (Real.arccos (z / Real.sqrt (x * x + y * y + z * z))) (Complex.arg ⟨x, y⟩) :=
   bondY_eq_Y l m x y z hr
+
+/-- Unsöld's identity for the C08 spherical harmonics of every degree l ≤ 12, all angles
+(from the decided polynomial identity `C08_unsold_poly`) -/
+theorem C09_unsold (l : ℕ) (hl : l ≤ 12) (θ φ : ℝ) :
+    ∑ k ∈ range (2 * l + 1), Complex.normSq (Pms.Sph.Y l ((k : ℤ) - l) θ φ) = (2 * l + 1) / (4 * Real.pi) :=
+  unsold_Y l (by rw [List.mem_range]; omega) θ φ
+
+/-- hence, for l ≤ 12, the Y-table the model computes from ANY non-zero bond vectors satisfies the Unsöld hypothesis -/
+theorem C09_unsold_model (l : ℕ) (hl : l ≤ 12) (cn : ℕ → ℕ) (vx vy vz : ℕ → ℕ → ℝ) (i : ℕ)
+    (hnz : ∀ j, j < cn i → 0 < vx i j * vx i j + vy i j * vy i j + vz i j * vz i j) :
+    Unsold l cn (fun i j k => bondY cOps l (vx i j) (vy i j) (vz i j) ((k : ℤ) - l)) i := by
+  intro j hj
+  simp only [C09_angles l _ _ _ _ (hnz j hj)]
+  exact C09_unsold l hl _ _
+
+/-- 0 ≤ q_l ≤ 1 with no hypothesis left for l ≤ 12: q_lm built by the model from any non-zero bond vectors,
+every particle with at least one neighbour -/
+theorem C09_ql_bounds_model (l : ℕ) (hl : l ≤ 12) (cn : ℕ → ℕ) (vx vy vz : ℕ → ℕ → ℝ) (i : ℕ) (hcn : 0 < cn i)
+    (hnz : ∀ j, j < cn i → 0 < vx i j * vx i j + vy i j * vy i j + vz i j * vz i j) :
+    0 ≤ ql cOps l (qlmImpl cn (fun i j k => bondY cOps l (vx i j) (vy i j) (vz i j) ((k : ℤ) - l)) i)
+    ∧ ql cOps l (qlmImpl cn (fun i j k => bondY cOps l (vx i j) (vy i j) (vz i j) ((k : ℤ) - l)) i) ≤ 1 :=
+  C09_ql_bounds l cn _ i hcn (C09_unsold_model l hl cn vx vy vz i hnz)
 
 end Pms.Boo
